@@ -112,7 +112,19 @@ pub fn gen_amount(t: &mut Tape, dom: Dom) -> AmountT {
             s * mant * crate::exact::pow2(e)
         }
         5 => {
-            const EXT: [f64; 12] = [
+            // the last ten: boundaries of the integer types (a shortcut
+            // through `as u64` or `as i64` saturates exactly there)
+            const EXT: [f64; 22] = [
+                2147483648.0,
+                4294967296.0,
+                9223372036854775808.0,
+                -9223372036854775808.0,
+                18446744073709551616.0,
+                -18446744073709551616.0,
+                18446744073709549568.0, // 2^64 - 2048, the f64 below 2^64
+                1.7014118346046923e38,  // 2^127
+                3.402823669209385e38,   // 2^128
+                -3.402823669209385e38,
                 0.0,
                 -0.0,
                 f64::MIN_POSITIVE,
